@@ -10,6 +10,7 @@
   (`compileDM` takes the setting as a `Bool`; probabilistic runs are replayed by the harness as forced ones.)
 -/
 import GraphiqModel.Proofs.HilbertBridgeExec
+import GraphiqModel.Proofs.HilbertBridgeDensity
 import GraphiqModel.Proofs.DMCompileH
 import GraphiqModel.Model.Noise
 namespace Graphiq
@@ -435,6 +436,23 @@ theorem regsOf_eq_finalRecord (nc : Nat) (w : List (Nat × Bool)) :
         simp [List.filter_append]
       · rw [if_neg hci]
         simp [List.filter_append, hci]
+
+/-! ### entirely inside the executable world -/
+
+/-- **`compileDM` returns the executable `stabilizerDensity` of the stabilizer run's tableau**, entry by entry:
+    both sides are computable exact matrices over ℚ[i] (`Mat.EqOn` = same size, equal entries below the size). -/
+theorem compileDM_eq_stabilizerDensity (ne np nc : Nat) (det : Bool) (script : List Bool) (ops : List Graphiq.COp)
+    (hwf : ∀ op, op ∈ ops → op.WF np) (s : RunState) (h : stabRun ne np (detOf det) script ops = some s) :
+    ∃ m, Noise.compileDM false ne np nc det (trOps ops)
+        = .ok { ρ := some m, creg := (finalRecord nc s.writes).map fun b => if b then 1 else 0 } ∧
+      Mat.EqOn m (DM.stabilizerDensity s.t) := by
+  obtain ⟨m, e, hrep⟩ := compileDM_eq_stab ne np nc det script ops hwf s h
+  rw [regsOf_eq_finalRecord] at e
+  refine ⟨m, e, ?_⟩
+  have hn : s.t.n = ne + np := (stabRun_inv ne np (detOf det) script ops hwf s h).2.1
+  have h2 := rep_stabilizerDensity s.t
+  rw [hn] at h2
+  exact rep_eqOn hrep h2
 
 end DMX
 end Graphiq
